@@ -111,10 +111,10 @@ theorem constLen_eval (len : Tm) (n : Nat) (h : constLen? len = some n) (c : CSt
   · simp at h
 
 /-- **non-conflicting operations commute** in every concrete state -/
-theorem actEff_comm (we : e.wf) (f g : Eff) (hf : f.wf = true) (hg : g.wf = true) (hc : confl f g = false) (c : CSt) :
+theorem actEff_comm_core (we : e.wf) (f g : Eff) (hf : f.wf = true) (hg : g.wf = true) (hc : conflCore f g = false) (c : CSt) :
     actEff e σ₀ f (actEff e σ₀ g c) = actEff e σ₀ g (actEff e σ₀ f c) := by
   cases f <;> cases g <;>
-    simp only [confl, flows, Eff.out?, Eff.args, Eff.memAcc, Eff.stoAcc, Eff.wf, List.any_cons, List.any_nil,
+    simp only [conflCore, flows, Eff.out?, Eff.args, Eff.memAcc, Eff.stoAcc, Eff.wf, List.any_cons, List.any_nil,
       List.all_cons, List.all_nil, Bool.or_false, Bool.and_true, Bool.or_eq_false_iff, Bool.and_eq_true,
       Bool.false_or, Bool.true_and, Bool.not_eq_false', Bool.true_or, Bool.false_and, beq_eq_false_iff_ne, ne_eq] at hc hf hg <;>
     simp only [actEff]
@@ -268,6 +268,14 @@ theorem actEff_comm (we : e.wf) (f g : Eff) (hf : f.wf = true) (hg : g.wf = true
       simp only [ev] at hn hd
       rw [hn, keccak_writeByte_disj e we _ _ _ _ _ hd]
   all_goals rfl
+
+/-- **non-conflicting operations commute**: identical operations trivially, all others by `actEff_comm_core` -/
+theorem actEff_comm (we : e.wf) (f g : Eff) (hf : f.wf = true) (hg : g.wf = true) (hc : confl f g = false) (c : CSt) :
+    actEff e σ₀ f (actEff e σ₀ g c) = actEff e σ₀ g (actEff e σ₀ f c) := by
+  by_cases h : f = g
+  · subst h; rfl
+  · have : conflCore f g = false := by simpa [confl, h] using hc
+    exact actEff_comm_core e σ₀ we f g hf hg this c
 
 /-! ### all admissible schedules agree -/
 
